@@ -20,6 +20,9 @@ int8 chains / float32 predictions in save_h5, centring over axis 1, mean instead
 along the wrong axis (crashed the harness before the guard) -- all red with a replay now.  Equivalent within the property's
 quantifier: re-sorting the mapping rows before `combinations` (row order of the space is not part of the property; the tie
 notices), np.prod special-cased for one effect (cannot occur for a non-single row).
+Temporaries: ModelEvaluation objects of equal shapes built and dropped one after the other; correlation_matrix /
+generate_full_combinatoric_space on throw-away subsets of equal size and throw-away holders of equal length (mutants: mse memo keyed by
+id(self) + shape, correlation_matrix memo keyed by (id(screen), id(thetas)) + sizes -- both red with a replay).
 """
 import itertools
 import math
@@ -57,6 +60,10 @@ def close(a, b, scale=1.0):
     if math.isnan(a) or math.isnan(b) or math.isinf(a) or math.isinf(b):
         return False
     return abs(a - b) <= REL * max(abs(a), abs(b), scale) + 1e-300
+
+
+def pscale_of(m):
+    return float(np.max(np.abs(m))) if m.size else 1.0
 
 
 def vec_tok(v):
@@ -200,6 +207,33 @@ def run_eval(case, res, lines, tmp):
             res.fail("mean_predictions shares storage with the evaluation's inputs", case, "view", "fresh array", signature="C20:aliasing")
     except Exception as e:  # noqa
         res.fail("evaluation metric raises when asked again", case, repr(e)[:200], "a value", signature="C20:object-reuse")
+    # temporaries: evaluations with the SAME shapes and other values are built, asked and dropped one after the other (CPython gives
+    # the next object the address of the previous one): anything memoised by id(self) / shape returns the neighbour's value
+    for v, (pv, ov) in enumerate(((preds[::-1].copy(), obs), (preds * 0.5, obs), (preds, obs[::-1].copy()), (preds.copy(), obs.copy()))):
+        sqv = [[(float(pv[e, k]) - float(ov[e])) ** 2 for k in range(K)] for e in range(E)]
+        pe = [fsum(r) / K for r in sqv]
+        w_mse = fsum(x for r in sqv for x in r) / (E * K)
+        w_var = fsum((x - fsum(pe) / E) ** 2 for x in pe) / E
+        cmv = []
+        for c in sorted(set(case["chains"])):
+            cols = [k for k in range(K) if case["chains"][k] == c]
+            cmv.append(fsum(sqv[e][k] for e in range(E) for k in cols) / (E * len(cols)))
+        w_ic = fsum((x - fsum(cmv) / len(cmv)) ** 2 for x in cmv) / len(cmv)
+        w_mp = [fsum(float(pv[e, k]) for k in range(K)) / K for e in range(E)]
+        sc_v = max(max(r) for r in sqv) if E and K else 1.0
+        try:
+            g = (float(ModelEvaluation(predictions=pv, observations=ov, chain_ids=chains, sample_names=names).mse()),
+                 float(ModelEvaluation(predictions=pv, observations=ov, chain_ids=chains, sample_names=names).mse_variance()),
+                 float(ModelEvaluation(predictions=pv, observations=ov, chain_ids=chains, sample_names=names).inter_chain_mse_variance()),
+                 [float(x) for x in ModelEvaluation(predictions=pv, observations=ov, chain_ids=chains, sample_names=names).mean_predictions])
+        except Exception as e:  # noqa
+            res.fail("a metric raises on a temporary evaluation object", case, repr(e)[:200], "a value", signature="C20:temporaries")
+            break
+        if not (close(g[0], w_mse, sc_v) and close(g[1], w_var, sc_v * sc_v) and close(g[2], w_ic, sc_v * sc_v)
+                and len(g[3]) == E and all(close(a, b, pscale_of(pv)) for a, b in zip(g[3], w_mp))):
+            res.fail("a metric of a temporary evaluation object (same shapes as an earlier one, other values) is not its definition", case,
+                     {"variant": v, "got": [g[0], g[1], g[2]]}, [w_mse, w_var, w_ic], signature="C20:temporaries")
+            break
     if (preds.tobytes(), obs.tobytes(), chains.tobytes(), names.tobytes(), P.deep_snap(ev)) != in_before:
         res.fail("evaluation metrics mutated the evaluation or its input arrays", case, "changed", "unchanged", signature="C20:input-mutation")
     msgs = {"mse": "mse is not the mean squared error over all (experiment, posterior sample) pairs",
@@ -428,7 +462,14 @@ def gen_model(rng, idx, kind_name):
     thetas = [P.gen_theta_case(rng, kind, n_s, n_t, regime) for _ in range(n_th)]
     d = max(thetas[0]["D"], 1)
     thetas = [P.gen_theta_case(rng, kind, n_s, n_t, regime) for _ in range(n_th)]
-    return {"kind": kind_name, "idx": idx, "model": kind, "raw": raw, "thetas": thetas}
+    n = len(raw["snames"])
+    tmp_masks = []
+    if n >= 2:
+        k = rng.randint(1, n - 1)
+        for _ in range(3):
+            chosen = set(rng.sample(range(n), k))
+            tmp_masks.append([i in chosen for i in range(n)])
+    return {"kind": kind_name, "idx": idx, "model": kind, "raw": raw, "thetas": thetas, "tmp_masks": tmp_masks}
 
 
 def holder_of(case):
@@ -529,6 +570,8 @@ def run_space(case, res, lines):
         except Exception as e:  # noqa
             res.fail("correlation_matrix raises when asked again", case, repr(e)[:200], "a matrix", signature="C20:object-reuse")
     supported = (a in (1, 2)) if kind == "sdc" else a == 2
+    if supported and not isinstance(corr, str) and sc.size >= 2:
+        run_space_temporaries(case, res, sc, h, ths)
     if not supported:
         if not isinstance(corr, str):
             res.fail("correlation_matrix returns for an unsupported arity", case, "matrix", "an exception")
@@ -582,6 +625,60 @@ def run_space(case, res, lines):
             lines.append(("c20.corr %s %d %s %d %s %s %s" % (kind, len(ths), hs, a, ints_tok(tm_ids), ints_tok(sm_ids), ints_tok(sc.sample_ids)),
                           corr, ("matrix", 1e3), case))
             lines.append(("c20.corrp " + mat_tok(Pm), corr, ("matrix", 1e3), case))
+
+
+def run_space_temporaries(case, res, sc, h, ths):
+    """correlation_matrix / generate_full_combinatoric_space on TEMPORARY subsets of equal size and on temporary holders of equal
+    length: the references are computed first on subsets / holders that stay alive (distinct addresses), then the same calls are
+    made on throw-away objects (address reuse): identical matrices and labels are required"""
+    from batchie.core import ThetaHolder
+    from batchie.models.main import generate_full_combinatoric_space, correlation_matrix
+    n = sc.size
+    masks = [np.array(m, dtype=bool) for m in case.get("tmp_masks", [])]
+
+    def cm_of(screen, holder):
+        with np.errstate(all="ignore"):
+            cm = correlation_matrix(screen, holder)
+        return (np.asarray(cm.values, dtype=float).tobytes(), [str(x) for x in cm.index], [str(x) for x in cm.columns])
+
+    def sp_of(sid, screen):
+        sp = generate_full_combinatoric_space(sid, screen)
+        return (np.asarray(sp.treatment_ids).tobytes(), np.asarray(sp.sample_ids).tobytes())
+
+    try:
+        alive = [sc.subset(m) for m in masks]
+        want_cm = [cm_of(v, h) for v in alive]
+        want_sp = [sp_of(int(v.unique_sample_ids[0]), v) for v in alive]
+        for rnd in (0, 1):
+            for k, m in enumerate(masks):
+                if cm_of(sc.subset(m), h) != want_cm[k]:
+                    res.fail("correlation_matrix on a temporary subset differs from the same subset kept alive", case, {"subset": k, "round": rnd},
+                             "identical matrix and labels", signature="C20:temporaries")
+                    return
+                if sp_of(int(alive[k].unique_sample_ids[0]), sc.subset(m)) != want_sp[k]:
+                    res.fail("generate_full_combinatoric_space on a temporary subset differs from the same subset kept alive", case,
+                             {"subset": k, "round": rnd}, "identical ids", signature="C20:temporaries")
+                    return
+        if len(ths) >= 2:
+            combos = ([0, 0], [1, 0], [1, 1], [len(ths) - 1, 0])
+            keep = []
+            want = []
+            for c in combos:
+                hh = ThetaHolder(n_thetas=2)
+                hh.thetas = [ths[i] for i in c]
+                keep.append(hh)
+                want.append(cm_of(sc, hh))
+            for rnd in (0, 1):
+                for c, w in zip(combos, want):
+                    hh = ThetaHolder(n_thetas=2)       # the previous holder bound to this name dies here
+                    hh.thetas = [ths[i] for i in c]
+                    if cm_of(sc, hh) != w:
+                        res.fail("correlation_matrix with a freshly built holder differs from an equal holder kept alive", case,
+                                 {"members": c, "round": rnd}, "identical matrix", signature="C20:temporaries")
+                        return
+    except Exception as e:  # noqa
+        res.fail("correlation_matrix / generate_full_combinatoric_space raises on a temporary subset or holder", case, repr(e)[:200], "a result",
+                 signature="C20:temporaries")
 
 
 def run_space_boundary(case, res, lines):
@@ -694,6 +791,7 @@ def _run(ctx, res):
             res.count("eval.layout.%s" % case["layout"])
             if not case["bad"]:
                 res.count("class.object_reuse.eval")
+                res.count("class.temporaries.eval")
                 res.count("class.input_mutation_aliasing.eval")
                 if reload:
                     res.count("class.attribute_completeness.reload")
@@ -778,6 +876,8 @@ def _run(ctx, res):
         res.evaluations += 1
         res.count("space.%s.arity%d" % (case["model"], case["raw"]["arity"]))
         res.count("class.input_mutation.space")
+        if case["tmp_masks"]:
+            res.count("class.temporaries.space")
         res.count("class.object_reuse.corr")
         if case["raw"].get("enc"):
             res.count("class.encoding.permuted.space")
